@@ -21,6 +21,8 @@ BOUNDS = {
 }
 OUTSIDE = "positive semi-definiteness / SVD accuracy in floating point; more than 3 free parameters in the covariance identities"
 
+FLOAT_SELFCHECK = True
+
 
 def preload():
     c02.preload()
